@@ -147,6 +147,29 @@ func (p *Prog) VerifyFunc(fi *FuncInfo, spec *FuncSpec) (res *FuncResult) {
 			}
 		}
 	}
+	// closures verified on their own: captured variables are inputs
+	if fi.Lit != nil {
+		seen := map[types.Object]bool{}
+		ast.Inspect(fi.Lit.Body, func(nd ast.Node) bool {
+			id, ok := nd.(*ast.Ident)
+			if !ok {
+				return true
+			}
+			o, ok := vc.info.Uses[id].(*types.Var)
+			if !ok || seen[o] || o.IsField() {
+				return true
+			}
+			if o.Parent() == o.Pkg().Scope() {
+				return true
+			}
+			if o.Pos() >= fi.Lit.Pos() && o.Pos() <= fi.Lit.End() {
+				return true
+			}
+			seen[o] = true
+			bindParam(o, o.Name())
+			return true
+		})
+	}
 	// results
 	var results []*types.Var
 	if ftype.Results != nil {
